@@ -58,6 +58,9 @@ struct LoopCfg {
 	/// with index_loop: the loop is `for PAT in X` over an owned Vec `X` (a path); the element is bound by reference
 	#[serde(default)]
 	by_value_as_ref: bool,
+	/// with index_loop: `for PAT in X` over an owned Vec `X` of Copy items: the element is bound by copy (`let PAT = X[i];`)
+	#[serde(default)]
+	by_copy: bool,
 }
 
 #[derive(Deserialize, Clone, Debug, Default)]
@@ -750,7 +753,7 @@ impl<'ast, 'c> Visit<'ast> for FnVisitor<'c> {
 				syn::Expr::MethodCall(mc) if mc.method == "iter" && mc.args.is_empty() => br(mc.receiver.span()),
 				// `for PAT in X` over an owned Vec named by a path: the index loop binds `&X[i]`; accepted only because the
 				// generated text must still type-check, i.e. the body only reads the element
-				syn::Expr::Path(_) if lc.by_value_as_ref => br(fl.expr.span()),
+				syn::Expr::Path(_) if lc.by_value_as_ref || lc.by_copy || lc.map_entries => br(fl.expr.span()),
 				_ => die(&format!("{}: loop {}: index_loop needs `for PAT in X.iter()`", self.fname, ord)),
 			};
 			let (ps, pe) = br(fl.pat.span());
@@ -783,6 +786,11 @@ impl<'ast, 'c> Visit<'ast> for FnVisitor<'c> {
 				self.push(bs + 1, bs + 1, vec![
 					Part::Text("\nlet ".to_string()), Part::Src(ps, pe),
 					Part::Text(format!(" = {}[{}]; {} = {} + 1;\n", ents, iv, iv, iv)),
+				], "L20");
+			} else if lc.by_copy {
+				self.push(bs + 1, bs + 1, vec![
+					Part::Text("\nlet ".to_string()), Part::Src(ps, pe), Part::Text(" = ".to_string()), Part::Src(recv.0, recv.1),
+					Part::Text(format!("[{}]; {} = {} + 1;\n", iv, iv, iv)),
 				], "L20");
 			} else {
 				self.push(bs + 1, bs + 1, vec![
